@@ -47,6 +47,11 @@ Definition canon (k : string) : string :=
 Definition first_values (h : hdr) : md :=
   flat_map (fun p => match snd p with v :: _ => [(fst p, v)] | [] => [] end) h.
 
+(* enrichContext / injectMessageMetadata build the outbound metadata from the propagator's header alone:
+   wire metadata the caller's context already carries — the inbound frame's, when an actor relays while
+   it handles a remote message, or anything pre-attached by the caller — is replaced, never forwarded. *)
+Definition enrich (attached : option md) (h : hdr) : md := first_values h.
+
 (* ---- receiver: Header.Set in iteration order *)
 Definition set (m : md) (k v : string) : md :=
   (k, v) :: filter (fun p => negb (String.eqb (fst p) k)) m.
@@ -71,6 +76,11 @@ Definition rctx := list md.
 (* ord m = the order in which the receiver's map iteration visits m's entries *)
 Definition deliver (ord : msg -> md) (req : rctx) (m : msg) : nat * rctx :=
   (mid m, match mmd m with [] => req | _ => (req ++ [restore (ord m)])%list end).
+
+(* second hop of client -> relay actor -> leaf: the relay handles a message that arrived with [inbound]
+   metadata, derives its outbound context from it and sends with the propagator injecting h2 *)
+Definition relay_hop (ord : msg -> md) (req : rctx) (inbound : md) (id : nat) (h2 : hdr) : nat * rctx :=
+  deliver ord req (mkMsg id (enrich (Some inbound) h2)).
 
 Fixpoint tell_loop (ord : msg -> md) (req : rctx) (batch : list msg) : list (nat * rctx) :=
   match batch with
